@@ -31,7 +31,7 @@ def afterFault (c : Cfg) (fc : FCfg) (mk : Mk) (w : WSt) (d : Disk) (rs : List R
 /-- The full-strength statement. -/
 def Holds (c : Cfg) (fc : FCfg) : Prop :=
   ∀ (mk : Mk), MkOk mk → ∀ (nl : Nat) (bs : List Block), (∀ b ∈ bs, b.WF) →
-  ∀ (w : WSt) (d : Disk), WInv d w (fileCells nl bs) → w.nl = nl → w.buf ≠ [] →
+  ∀ (w : WSt) (d : Disk), WInv d w (fileCells nl bs) → w.nl = nl → w.dirty = false → w.buf ≠ [] →
   ∀ (rs : List Res) (items : List (Op × Nat)), items ≠ [] →
     ∃ f, (afterFault c fc mk w d rs items).d.get w.path = some f ∧
       loadEntries c.r f = entsOf bs ++ w.buf ++ items.map (·.1)
@@ -40,11 +40,14 @@ def Holds (c : Cfg) (fc : FCfg) : Prop :=
 
 /-- from a writer at the end of a file with an intact header: write `items`, `Sync`, load -/
 theorem finish_clean (c : Cfg) (fc : FCfg) (mk : Mk) (hmk : MkOk mk) (nl : Nat) (bs1 : List Block)
-    (hwf : ∀ b ∈ bs1, b.WF) (s : FSt) (hinv : WInv s.d s.w (fileCells nl bs1)) (items : List (Op × Nat)) :
+    (hwf : ∀ b ∈ bs1, b.WF) (s : FSt) (hinv : WInv s.d s.w (fileCells nl bs1)) (hdirty : s.w.dirty = false)
+    (items : List (Op × Nat)) :
     ∃ f, (syncWF c fc mk (addManyWF fc mk (cleared s) items)).d.get s.w.path = some f ∧
       loadEntries c.r f = entsOf bs1 ++ s.w.buf ++ items.map (·.1) := by
-  have h1 := addManyWF_nofault fc mk items (cleared s) rfl
-  have h2 := syncWF_nofault_disk c fc mk (addManyWF fc mk (cleared s) items) h1.2.2
+  have h1 := addManyWF_nofault fc mk items (cleared s) rfl hdirty
+  have hd2 : (addManyWF fc mk (cleared s) items).w.dirty = false := by
+    rw [h1.1, addManyW_dirty]; exact hdirty
+  have h2 := syncWF_nofault_disk c fc mk (addManyWF fc mk (cleared s) items) h1.2.2 hd2
   rw [h2, h1.1, h1.2.1]
   simp only [cleared]
   obtain ⟨a, ha, pa⟩ := addManyW_spec mk hmk items s.d s.w _ hinv
@@ -85,7 +88,7 @@ theorem failed_write_drops_entries (c : Cfg) (fc : FCfg) (h1 : fc.clearsBufferBe
   let d : Disk := { main := some (fileCells 0 []), temp := none }
   have hF : (fileCells 0 []).length = 64 := by simp [fileCells, render, nmCells]
   have hinv : WInv d w (fileCells 0 []) := ⟨rfl, by simp [w, hF], fileCells_hdr 0 []⟩
-  obtain ⟨f, hget, hload⟩ := hh mk0 hmk 0 [] (by simp) w d hinv rfl (by simp [w]) [.err] [(Op.put 2 2, 10)] (by simp)
+  obtain ⟨f, hget, hload⟩ := hh mk0 hmk 0 [] (by simp) w d hinv rfl rfl (by simp [w]) [.err] [(Op.put 2 2, 10)] (by simp)
   -- the failed flush: buffer emptied, file and offset unchanged
   have hfl : flushWF fc mk0 { w := w, d := d, rs := [.err] } =
       { w := { w with buf := [], bufSize := 0 }, d := d,
@@ -97,20 +100,14 @@ theorem failed_write_drops_entries (c : Cfg) (fc : FCfg) (h1 : fc.clearsBufferBe
   have hinv2 : WInv d { w with buf := [], bufSize := 0 } (fileCells 0 []) := ⟨rfl, by simp [w, hF], fileCells_hdr 0 []⟩
   obtain ⟨f', hget', hload'⟩ := finish_clean c fc mk0 hmk 0 [] (by simp)
     { w := { w with buf := [], bufSize := 0 }, d := d,
-      ops := [(.write .main 64 (hdrCells (mk0 [Op.put 1 1])), .err)], rs := [], failed := true } hinv2 [(Op.put 2 2, 10)]
+      ops := [(.write .main 64 (hdrCells (mk0 [Op.put 1 1])), .err)], rs := [], failed := true } hinv2 rfl [(Op.put 2 2, 10)]
   simp only [afterFault, hfl] at hget
   rw [hget'] at hget
   cases hget
   rw [hload'] at hload
   simp [entsOf, w] at hload
 
-/-! ### A writer that rolls a failed block back -/
-
-/-- the result handed to the rollback `truncate`, if the flush issues one -/
-def rollbackRes (rs : List Res) : Res :=
-  if !(nextRes rs).1.isOk then (nextRes (nextRes rs).2).1
-  else if !(nextRes (nextRes rs).2).1.isOk then (nextRes (nextRes (nextRes rs).2).2).1
-  else .ok
+/-! ### The repaired flush: roll a failed block back, retry a failed rollback before the next block -/
 
 theorem issue_eq (s : FSt) (op : FsOp) :
     s.issue op = ({ s with d := s.d.applyRes op (nextRes s.rs).1, ops := s.ops ++ [(op, (nextRes s.rs).1)],
@@ -126,50 +123,93 @@ theorem get_truncate_back (d : Disk) (p : Path) (f x : List Cell) (h : d.get p =
   simp only [Disk.applyRes, Res.isOk, if_true, Disk.apply, h, Disk.get_set, if_true]
   simp
 
-/-- **The repaired flush keeps the file clean** (`_partial`: the rollback truncate itself is
-    assumed to succeed — a failing rollback, i.e. a second fault exactly there, is not covered).
-    Whatever results the three writes get, afterwards the file is the old clean file and the
-    buffer is intact, or the file is the old file plus the whole new block and the buffer is
-    empty; the descriptor is at the end in both cases. -/
-theorem repaired_flush_partial (fc : FCfg) (h1 : fc.rollsBackFailedBlock = true) (h2 : fc.restoresOffsetAfterHeader = true)
-    (mk : Mk) (hmk : MkOk mk) (nl : Nat) (bs : List Block) (w : WSt) (d : Disk)
-    (hinv : WInv d w (fileCells nl bs)) (hb : w.buf ≠ []) (rs : List Res) (hrb : rollbackRes rs = .ok) :
-    (WInv (flushWF fc mk { w := w, d := d, rs := rs }).d (flushWF fc mk { w := w, d := d, rs := rs }).w (fileCells nl bs) ∧
-      (flushWF fc mk { w := w, d := d, rs := rs }).w.buf = w.buf) ∨
-    (WInv (flushWF fc mk { w := w, d := d, rs := rs }).d (flushWF fc mk { w := w, d := d, rs := rs }).w
-        (fileCells nl (bs ++ [mk w.buf])) ∧
-      (flushWF fc mk { w := w, d := d, rs := rs }).w.buf = []) := by
+theorem get_truncate_failed (d : Disk) (p : Path) (n : Nat) (r : Res) (h : r.isOk = false) :
+    d.applyRes (.truncate p n) r = d := by
+  simp [Disk.applyRes, h]
+
+theorem flushWF_path (fc : FCfg) (h1 : fc.rollsBackFailedBlock = true) (h2 : fc.restoresOffsetAfterHeader = true)
+    (mk : Mk) (w : WSt) (d : Disk) (hdirty : w.dirty = false) (hb : w.buf ≠ []) (rs : List Res) :
+    (flushWF fc mk { w := w, d := d, rs := rs }).w.path = w.path := by
+  unfold flushWF
+  simp only [hdirty, Bool.and_false, Bool.false_eq_true, if_false, Bool.not_true, issue_eq, h1, h2, if_true]
+  by_cases k1 : (nextRes rs).1.isOk = true
+  · simp only [k1, Bool.not_true, Bool.false_eq_true, if_false]
+    by_cases k2 : (nextRes (nextRes rs).2).1.isOk = true
+    · simp only [k2, Bool.not_true, Bool.false_eq_true, if_false]
+      by_cases k3 : (nextRes (nextRes (nextRes rs).2).2).1.isOk = true
+      · simp only [k3, Bool.not_true, Bool.false_eq_true, if_false]
+      · simp only [k3, Bool.not_false, if_true]
+    · simp only [k2, Bool.not_false, if_true]
+  · simp only [k1, Bool.not_false, if_true]
+
+/-- writer at the logical end `F` of its file, possibly with a fragment `junk` it still has to cut off -/
+structure DInv (d : Disk) (w : WSt) (F junk : List Cell) : Prop where
+  file : d.get w.path = some (F ++ junk)
+  atEnd : w.pos = F.length
+  hdr : HdrOk F w.nl
+  clean : w.dirty = false → junk = []
+
+theorem DInv.toWInv {d : Disk} {w : WSt} {F junk : List Cell} (h : DInv d w F junk) (hd : w.dirty = false) : WInv d w F := by
+  have := h.clean hd
+  subst this
+  exact ⟨by simpa using h.file, h.atEnd, h.hdr⟩
+
+/-- **The repaired flush under arbitrary results.**  Either the whole block is on disk and the
+    buffer is empty, or the file is logically unchanged (at most a fragment behind its end that
+    the writer knows about) and the buffer is intact.  No hypothesis on the results: a rollback
+    truncate that fails is remembered (`dirty`). -/
+theorem repaired_flush (fc : FCfg) (h1 : fc.rollsBackFailedBlock = true) (h2 : fc.restoresOffsetAfterHeader = true)
+    (mk : Mk) (nl : Nat) (bs : List Block) (w : WSt) (d : Disk)
+    (hinv : WInv d w (fileCells nl bs)) (hdirty : w.dirty = false) (hb : w.buf ≠ []) (rs : List Res) :
+    ((flushWF fc mk { w := w, d := d, rs := rs }).w.buf = [] ∧
+      (flushWF fc mk { w := w, d := d, rs := rs }).w.dirty = false ∧
+      WInv (flushWF fc mk { w := w, d := d, rs := rs }).d (flushWF fc mk { w := w, d := d, rs := rs }).w
+        (fileCells nl (bs ++ [mk w.buf]))) ∨
+    ((flushWF fc mk { w := w, d := d, rs := rs }).w.buf = w.buf ∧
+      ∃ junk, DInv (flushWF fc mk { w := w, d := d, rs := rs }).d (flushWF fc mk { w := w, d := d, rs := rs }).w
+        (fileCells nl bs) junk) := by
   have hF := hinv.atEnd
   have hfile := hinv.file
   have hblk : fileCells nl (bs ++ [mk w.buf]) = fileCells nl bs ++ blockCells (mk w.buf) := by
     simp [fileCells, render_append, render, List.append_assoc]
+  -- what the rollback leaves, whatever the truncate's result
+  have roll : ∀ (d1 : Disk) (x : List Cell) (r : Res), d1.get w.path = some (fileCells nl bs ++ x) →
+      ∃ junk, DInv (d1.applyRes (.truncate w.path w.pos) r)
+        { path := w.path, pos := w.pos, nl := w.nl, buf := w.buf, bufSize := w.bufSize, bs := w.bs, dirty := !r.isOk }
+        (fileCells nl bs) junk := by
+    intro d1 x r hd1
+    by_cases hr : r.isOk = true
+    · have : r = .ok := by cases r <;> simp_all [Res.isOk]
+      subst this
+      refine ⟨[], ?_, hF, hinv.hdr, fun _ => rfl⟩
+      rw [hF, List.append_nil]; exact get_truncate_back d1 w.path _ x hd1
+    · have hr' : r.isOk = false := by simpa using hr
+      refine ⟨x, ?_, hF, hinv.hdr, ?_⟩
+      · rw [get_truncate_failed _ _ _ _ hr']; exact hd1
+      · intro hcl; simp [hr'] at hcl
   unfold flushWF
-  split
-  · rename_i hnil; exact absurd hnil hb
-  · simp only [issue_eq, h1, h2, if_true]
-    by_cases k1 : (nextRes rs).1.isOk = true
+  simp only [hdirty, Bool.and_false, Bool.false_eq_true, if_false, Bool.not_true, issue_eq, h1, h2, if_true]
+  · by_cases k1 : (nextRes rs).1.isOk = true
     · simp only [k1, Bool.not_true, Bool.false_eq_true, if_false]
+      have e1 : (nextRes rs).1 = .ok := by cases h : (nextRes rs).1 <;> simp_all [Res.isOk]
+      have t16 : (hdrCells (mk w.buf)).take (Res.ok.written (hdrCells (mk w.buf)).length) = hdrCells (mk w.buf) :=
+        List.take_of_length_le (by simp [Res.written])
+      have g1 := get_applyRes_write d w.path _ hfile (hdrCells (mk w.buf)) .ok
+      rw [← hF, t16] at g1
+      have hl : (fileCells nl bs ++ hdrCells (mk w.buf)).length = w.pos + 16 := by simp [hF]
       by_cases k2 : (nextRes (nextRes rs).2).1.isOk = true
       · simp only [k2, Bool.not_true, Bool.false_eq_true, if_false]
-        -- both block writes went through: the block is on disk whatever happens to the header rewrite
-        right
-        have e1 : (nextRes rs).1 = .ok := by cases h : (nextRes rs).1 <;> simp_all [Res.isOk]
+        left
         have e2 : (nextRes (nextRes rs).2).1 = .ok := by cases h : (nextRes (nextRes rs).2).1 <;> simp_all [Res.isOk]
-        have t16 : (hdrCells (mk w.buf)).take (Res.ok.written (hdrCells (mk w.buf)).length) = hdrCells (mk w.buf) :=
-          List.take_of_length_le (by simp [Res.written])
         have tp : (payCells (mk w.buf)).take (Res.ok.written (payCells (mk w.buf)).length) = payCells (mk w.buf) :=
           List.take_of_length_le (by simp [Res.written])
-        have g1 := get_applyRes_write d w.path _ hfile (hdrCells (mk w.buf)) .ok
-        rw [← hF, t16] at g1
         have g2 := get_applyRes_write _ w.path _ g1 (payCells (mk w.buf)) .ok
-        have hl : (fileCells nl bs ++ hdrCells (mk w.buf)).length = w.pos + 16 := by simp [hF]
         rw [hl, tp] at g2
         have g2' : ((d.applyRes (.write w.path w.pos (hdrCells (mk w.buf))) .ok).applyRes
             (.write w.path (w.pos + 16) (payCells (mk w.buf))) .ok).get w.path = some (fileCells nl (bs ++ [mk w.buf])) := by
           rw [g2, hblk]; simp [blockCells, List.append_assoc]
         have hh : HdrOk (fileCells nl (bs ++ [mk w.buf])) w.nl := by
           rw [hblk]; exact hinv.hdr.append _
-        -- the header rewrite, whole or torn, changes nothing
         have g3 : ∀ r : Res, (((d.applyRes (.write w.path w.pos (hdrCells (mk w.buf))) .ok).applyRes
             (.write w.path (w.pos + 16) (payCells (mk w.buf))) .ok).applyRes (.write w.path 0 (fhCells w.nl)) r).get w.path =
               some (fileCells nl (bs ++ [mk w.buf])) := by
@@ -182,60 +222,177 @@ theorem repaired_flush_partial (fc : FCfg) (h1 : fc.rollsBackFailedBlock = true)
         rw [e1, e2]
         by_cases k3 : (nextRes (nextRes (nextRes rs).2).2).1.isOk = true
         · simp only [k3, Bool.not_true, Bool.false_eq_true, if_false]
-          exact ⟨⟨g3 _, hpos, hh⟩, trivial⟩
+          exact ⟨trivial, trivial, ⟨g3 _, hpos, hh⟩⟩
         · simp only [k3, Bool.not_false, if_true]
-          exact ⟨⟨g3 _, hpos, hh⟩, trivial⟩
-      · -- the payload write failed: cut the fragment off again
+          exact ⟨trivial, trivial, ⟨g3 _, hpos, hh⟩⟩
+      · -- the payload write failed
         simp only [k2, Bool.not_false, if_true]
-        left
-        have e1 : (nextRes rs).1 = .ok := by cases h : (nextRes rs).1 <;> simp_all [Res.isOk]
-        have ht : (nextRes (nextRes (nextRes rs).2).2).1 = .ok := by
-          simpa [rollbackRes, k1, k2] using hrb
-        have g1 := get_applyRes_write d w.path _ hfile (hdrCells (mk w.buf)) .ok
-        rw [← hF] at g1
+        right
         have g2 := get_applyRes_write _ w.path _ g1 (payCells (mk w.buf)) (nextRes (nextRes rs).2).1
-        have hl : (fileCells nl bs ++ (hdrCells (mk w.buf)).take (Res.ok.written (hdrCells (mk w.buf)).length)).length = w.pos + 16 := by
-          simp [hF, Res.written]
         rw [hl, List.append_assoc] at g2
-        have g3 := get_truncate_back _ w.path _ _ g2
-        rw [← hF] at g3
-        rw [e1, ht]
-        exact ⟨⟨g3, hF, hinv.hdr⟩, trivial⟩
-    · -- the header write failed: cut the fragment off again
+        rw [e1]
+        obtain ⟨junk, hj⟩ := roll _ _ (nextRes (nextRes (nextRes rs).2).2).1 g2
+        exact ⟨trivial, junk, hj⟩
+    · -- the header write failed
       simp only [k1, Bool.not_false, if_true]
-      left
-      have ht : (nextRes (nextRes rs).2).1 = .ok := by
-        have : (nextRes rs).1.isOk = false := by simpa using k1
-        simpa [rollbackRes, this] using hrb
+      right
       have g1 := get_applyRes_write d w.path _ hfile (hdrCells (mk w.buf)) (nextRes rs).1
       rw [← hF] at g1
-      have g3 := get_truncate_back _ w.path _ _ g1
-      rw [← hF] at g3
-      rw [ht]
-      exact ⟨⟨g3, hF, hinv.hdr⟩, trivial⟩
+      obtain ⟨junk, hj⟩ := roll _ _ (nextRes (nextRes rs).2).1 g1
+      exact ⟨trivial, junk, hj⟩
 
-/-- **Repaired writer (partial).**  With a flush that rolls a failed block back and restores the
-    offset after a failed header rewrite, nothing is hidden and nothing is dropped — for every
-    result stream whose rollback truncate succeeds.  Missing for the full statement: a fault that
-    hits the rollback truncate itself. -/
-theorem repaired_writer_safe_partial (c : Cfg) (fc : FCfg) (h1 : fc.rollsBackFailedBlock = true)
-    (h2 : fc.restoresOffsetAfterHeader = true) (mk : Mk) (hmk : MkOk mk) (nl : Nat) (bs : List Block)
-    (hwf : ∀ b ∈ bs, b.WF) (w : WSt) (d : Disk) (hinv : WInv d w (fileCells nl bs)) (hb : w.buf ≠ [])
-    (rs : List Res) (hrb : rollbackRes rs = .ok) (items : List (Op × Nat)) :
-    ∃ f, (afterFault c fc mk w d rs items).d.get (flushWF fc mk { w := w, d := d, rs := rs }).w.path = some f ∧
-      loadEntries c.r f = entsOf bs ++ w.buf ++ items.map (·.1) := by
-  rcases repaired_flush_partial fc h1 h2 mk hmk nl bs w d hinv hb rs hrb with ⟨hi, hbuf⟩ | ⟨hi, hbuf⟩
-  · obtain ⟨f, hf, hl⟩ := finish_clean c fc mk hmk nl bs hwf _ hi items
-    exact ⟨f, hf, by rw [hl, hbuf]⟩
+/-- fault-free flush from a state that may still carry a fragment: it is cut off first -/
+def undirty (s : FSt) : FSt :=
+  { s with d := s.d.applyRes (.truncate s.w.path s.w.pos) .ok, w := { s.w with dirty := false }, ops := s.ops ++ [(.truncate s.w.path s.w.pos, .ok)] }
+
+theorem flushWF_dirty_ok (fc : FCfg) (h1 : fc.rollsBackFailedBlock = true) (mk : Mk) (s : FSt) (h : s.rs = [])
+    (hd : s.w.dirty = true) : flushWF fc mk s = flushWF fc mk (undirty s) := by
+  unfold undirty
+  conv => lhs; unfold flushWF
+  conv => rhs; unfold flushWF
+  simp [h1, hd, FSt.issue, nextRes, h, Res.isOk]
+
+/-- after the fault has cleared: a flush leaves a clean file holding the buffered entries -/
+theorem flushWF_ok_spec (fc : FCfg) (h1 : fc.rollsBackFailedBlock = true) (mk : Mk) (hmk : MkOk mk) (s : FSt)
+    (F junk : List Cell) (hi : DInv s.d s.w F junk) (h : s.rs = []) :
+    ∃ nbs, entsOf nbs = s.w.buf ∧ (∀ b ∈ nbs, b.WF) ∧ (flushWF fc mk s).w.buf = [] ∧ (flushWF fc mk s).w.dirty = false ∧
+      (flushWF fc mk s).rs = [] ∧ WInv (flushWF fc mk s).d (flushWF fc mk s).w (F ++ render nbs) ∧
+      (flushWF fc mk s).w.path = s.w.path := by
+  -- reduce to a clean state
+  have key : ∀ t : FSt, WInv t.d t.w F → t.w.dirty = false → t.rs = [] →
+      ∃ nbs, entsOf nbs = t.w.buf ∧ (∀ b ∈ nbs, b.WF) ∧ (flushWF fc mk t).w.buf = [] ∧ (flushWF fc mk t).w.dirty = false ∧
+        (flushWF fc mk t).rs = [] ∧ WInv (flushWF fc mk t).d (flushWF fc mk t).w (F ++ render nbs) ∧
+        (flushWF fc mk t).w.path = t.w.path := by
+    intro t hw hdt ht
+    obtain ⟨e1, e2, e3, _⟩ := flushWF_nofault fc mk t ht hdt
+    obtain ⟨nbs, he, hbuf, hp⟩ := flushW_spec mk hmk t.d t.w F hw
+    refine ⟨nbs, he, hp.wf, by rw [e1]; exact hbuf, by rw [e1, flushW_dirty]; exact hdt, e3, ?_, by rw [e1]; exact hp.path⟩
+    rw [e1, e2]; exact hp.inv
+  by_cases hd : s.w.dirty = false
+  · exact key s (hi.toWInv hd) hd h
+  · have hd' : s.w.dirty = true := by simpa using hd
+    rw [flushWF_dirty_ok fc h1 mk s h hd']
+    have hw : WInv (undirty s).d (undirty s).w F := by
+      refine ⟨?_, hi.atEnd, hi.hdr⟩
+      show (s.d.applyRes (.truncate s.w.path s.w.pos) .ok).get s.w.path = some F
+      rw [hi.atEnd]; exact get_truncate_back s.d s.w.path F junk hi.file
+    exact key (undirty s) hw rfl h
+
+/-- `WriteEntry` after the fault has cleared -/
+theorem addWF_ok_spec (fc : FCfg) (h1 : fc.rollsBackFailedBlock = true) (mk : Mk) (hmk : MkOk mk) (s : FSt)
+    (F junk : List Cell) (hi : DInv s.d s.w F junk) (h : s.rs = []) (e : Op) (sz : Nat) :
+    ∃ nbs junk', entsOf nbs ++ (addWF fc mk s e sz).w.buf = s.w.buf ++ [e] ∧ (∀ b ∈ nbs, b.WF) ∧
+      (addWF fc mk s e sz).rs = [] ∧ DInv (addWF fc mk s e sz).d (addWF fc mk s e sz).w (F ++ render nbs) junk' ∧
+      (addWF fc mk s e sz).w.path = s.w.path := by
+  unfold addWF
+  simp only
+  split
+  · have hi' : DInv s.d { s.w with buf := s.w.buf ++ [e], bufSize := s.w.bufSize + sz } F junk :=
+      ⟨hi.file, hi.atEnd, hi.hdr, hi.clean⟩
+    obtain ⟨nbs, he, hwf, hbuf, hdt, hrs, hw, hp⟩ := flushWF_ok_spec fc h1 mk hmk
+      { s with w := { s.w with buf := s.w.buf ++ [e], bufSize := s.w.bufSize + sz } } F junk hi' h
+    refine ⟨nbs, [], by rw [hbuf, he]; simp, hwf, hrs, ?_, hp⟩
+    exact ⟨by simpa using hw.file, hw.atEnd, hw.hdr, fun _ => rfl⟩
+  · exact ⟨[], junk, by simp [entsOf], by simp, h, by
+      rw [render_nil_append]; exact ⟨hi.file, hi.atEnd, hi.hdr, hi.clean⟩, rfl⟩
+
+theorem addManyWF_ok_spec (fc : FCfg) (h1 : fc.rollsBackFailedBlock = true) (mk : Mk) (hmk : MkOk mk)
+    (items : List (Op × Nat)) : ∀ (s : FSt) (F junk : List Cell), DInv s.d s.w F junk → s.rs = [] →
+    ∃ nbs junk', entsOf nbs ++ (addManyWF fc mk s items).w.buf = s.w.buf ++ items.map (·.1) ∧ (∀ b ∈ nbs, b.WF) ∧
+      (addManyWF fc mk s items).rs = [] ∧
+      DInv (addManyWF fc mk s items).d (addManyWF fc mk s items).w (F ++ render nbs) junk' ∧
+      (addManyWF fc mk s items).w.path = s.w.path := by
+  induction items with
+  | nil => intro s F junk hi h; exact ⟨[], junk, by simp [entsOf, addManyWF], by simp, h, by
+      rw [render_nil_append]; exact hi, rfl⟩
+  | cons it rest ih =>
+    intro s F junk hi h
+    obtain ⟨e, sz⟩ := it
+    obtain ⟨a, j1, ha, hwa, hra, hia, hpa⟩ := addWF_ok_spec fc h1 mk hmk s F junk hi h e sz
+    obtain ⟨b, j2, hb, hwb, hrb, hib, hpb⟩ := ih { addWF fc mk s e sz with failed := false } _ j1 hia hra
+    refine ⟨a ++ b, j2, ?_, ?_, hrb, ?_, by simp only [addManyWF]; rw [hpb]; exact hpa⟩
+    · simp only [addManyWF, entsOf_append, List.map_cons, List.append_assoc]
+      rw [hb, ← List.append_assoc, ha]; simp
+    · intro x hx
+      rcases List.mem_append.mp hx with hx | hx
+      · exact hwa x hx
+      · exact hwb x hx
+    · simp only [addManyWF]
+      rw [render_append, ← List.append_assoc]; exact hib
+
+/-- `Sync` after the fault has cleared: the file is clean and holds everything -/
+theorem syncWF_ok_spec (c : Cfg) (fc : FCfg) (h1 : fc.rollsBackFailedBlock = true) (mk : Mk) (hmk : MkOk mk) (s : FSt)
+    (F junk : List Cell) (hi : DInv s.d s.w F junk) (h : s.rs = []) :
+    ∃ nbs, entsOf nbs = s.w.buf ∧ (∀ b ∈ nbs, b.WF) ∧ (syncWF c fc mk s).d.get s.w.path = some (F ++ render nbs) := by
+  obtain ⟨nbs, he, hwf, _, _, hrs, hw, hp⟩ := flushWF_ok_spec fc h1 mk hmk { s with failed := false } F junk
+    ⟨hi.file, hi.atEnd, hi.hdr, hi.clean⟩ h
+  refine ⟨nbs, he, hwf, ?_⟩
+  have hfl : (flushWF fc mk { s with failed := false }).failed = false := by
+    by_cases hd : s.w.dirty = false
+    · exact (flushWF_nofault fc mk { s with failed := false } h hd).2.2.2
+    · have hd' : s.w.dirty = true := by simpa using hd
+      rw [flushWF_dirty_ok fc h1 mk { s with failed := false } h hd']
+      exact (flushWF_nofault fc mk (undirty { s with failed := false }) h rfl).2.2.2
+  unfold syncWF
+  simp only [hfl, Bool.false_eq_true, if_false, FSt.issue, hrs, nextRes, Res.isOk, Bool.not_true]
+  have hno : ((flushWF fc mk { s with failed := false }).d.applyRes
+      (.write (flushWF fc mk { s with failed := false }).w.path 0 (fhCells (flushWF fc mk { s with failed := false }).w.nl)) .ok) =
+      (flushWF fc mk { s with failed := false }).d := by
+    rw [applyRes_ok]; exact header_rewrite_noop _ _ _ hw
+  rw [hno]
+  have hfile := hw.file
+  rw [hp] at hfile
+  cases c.syncFsyncs
+  · simpa using hfile
+  · simp only [if_true, applyRes_ok, Disk.apply]; simpa using hfile
+
+/-- **Repaired writer: nothing hidden, nothing dropped — for every result stream.**  With a flush
+    that rolls a failed block back (retrying a failed rollback before the next block) and restores
+    the offset after a failed header rewrite, the full statement holds. -/
+theorem holds_of_repaired (c : Cfg) (fc : FCfg) (h1 : fc.rollsBackFailedBlock = true)
+    (h2 : fc.restoresOffsetAfterHeader = true) : ∀ (mk : Mk), MkOk mk → ∀ (nl : Nat) (bs : List Block), (∀ b ∈ bs, b.WF) →
+    ∀ (w : WSt) (d : Disk), WInv d w (fileCells nl bs) → w.dirty = false → w.buf ≠ [] →
+    ∀ (rs : List Res) (items : List (Op × Nat)),
+      ∃ f, (afterFault c fc mk w d rs items).d.get w.path = some f ∧
+        loadEntries c.r f = entsOf bs ++ w.buf ++ items.map (·.1) := by
+  intro mk hmk nl bs hwf w d hinv hdirty hb rs items
+  have fin : ∀ (s : FSt) (bs1 : List Block) (junk : List Cell), (∀ b ∈ bs1, b.WF) → DInv s.d s.w (fileCells nl bs1) junk →
+      ∃ f, (syncWF c fc mk (addManyWF fc mk (cleared s) items)).d.get s.w.path = some f ∧
+        loadEntries c.r f = entsOf bs1 ++ s.w.buf ++ items.map (·.1) := by
+    intro s bs1 junk hw1 hi
+    obtain ⟨a, j1, ha, hwa, hra, hia, hpa⟩ := addManyWF_ok_spec fc h1 mk hmk items (cleared s) _ junk
+      (⟨hi.file, hi.atEnd, hi.hdr, hi.clean⟩ : DInv (cleared s).d (cleared s).w _ junk) rfl
+    obtain ⟨nbs, hn, hnwf, hget⟩ := syncWF_ok_spec c fc h1 mk hmk _ _ j1 hia hra
+    rw [hpa] at hget
+    refine ⟨_, hget, ?_⟩
+    have hall : ∀ b ∈ bs1 ++ a ++ nbs, b.WF := by
+      intro b hb'
+      rcases List.mem_append.mp hb' with hb' | hb'
+      · rcases List.mem_append.mp hb' with hb' | hb'
+        · exact hw1 b hb'
+        · exact hwa b hb'
+      · exact hnwf b hb'
+    have hfile : fileCells nl bs1 ++ render a ++ render nbs = fileCells nl (bs1 ++ a ++ nbs) := by
+      simp [fileCells, render_append, List.append_assoc]
+    rw [hfile]
+    simp only [loadEntries, loadFile_clean c.r nl _ hall]
+    rw [entsOf_append, entsOf_append, hn, List.append_assoc, List.append_assoc, ha]
+    simp [cleared]
+  have hpath := flushWF_path fc h1 h2 mk w d hdirty hb rs
+  rcases repaired_flush fc h1 h2 mk nl bs w d hinv hdirty hb rs with ⟨hbuf, hdt, hw⟩ | ⟨hbuf, junk, hi⟩
   · have hwf' : ∀ b ∈ bs ++ [mk w.buf], b.WF := by
       intro b hb'
       rcases List.mem_append.mp hb' with hb' | hb'
       · exact hwf b hb'
       · simp only [List.mem_cons, List.not_mem_nil, or_false] at hb'; subst hb'; exact (hmk w.buf hb).1
-    obtain ⟨f, hf, hl⟩ := finish_clean c fc mk hmk nl _ hwf' _ hi items
+    obtain ⟨f, hf, hl⟩ := fin _ _ [] hwf' ⟨by simpa using hw.file, hw.atEnd, hw.hdr, fun _ => rfl⟩
+    rw [hpath] at hf
     refine ⟨f, hf, ?_⟩
     rw [hl, hbuf, entsOf_append]
     simp [entsOf, (hmk w.buf hb).2]
+  · obtain ⟨f, hf, hl⟩ := fin _ _ junk hwf hi
+    rw [hpath] at hf
+    exact ⟨f, hf, by rw [hl, hbuf]⟩
 
 /-- Non-vacuity: the hypotheses of `Holds` are met by the state after a real flush. -/
 example : ∃ (w : WSt) (d : Disk), WInv d w (fileCells 0 []) ∧ w.buf ≠ [] :=
@@ -282,27 +439,27 @@ def modelApplies (f : Facts) : Bool :=
 
 /-- the defects the current failure handling exposes (each reproduced by the correspondence run;
     `failed_write_drops_entries` is the kernel-checked witness that refutes `Holds`) -/
-def currentFindings : List String :=
-  ["C25-failed-write-drops-entries", "C25-partial-block-strands-later-writes",
-   "C25-failed-header-rewrite-overwrites-file", "C25-failed-create-bricks-swamp"]
+def currentFindings (f : Facts) : List String :=
+  ["C25-failed-write-drops-entries", "C25-partial-block-strands-later-writes"] ++
+  (if f.restoresOffsetAfterHeader.isYes then [] else ["C25-failed-header-rewrite-overwrites-file"]) ++
+  (if f.truncatesTornTail.isYes then [] else ["C25-failed-create-bricks-swamp"])
 
 def classify (f : Facts) : Verdict :=
   if !modelApplies f then .undetermined "a failure-handling fact was not recognised (the model does not describe this code)"
-  else if f.clearsBufferBeforeWrite.isYes && !f.rollsBackFailedBlock.isYes then .violated currentFindings
-  else .undetermined "no full theorem for this failure handling (repaired writer: only repaired_writer_safe_partial)"
+  else if f.rollsBackFailedBlock.isYes && f.restoresOffsetAfterHeader.isYes then .holds
+  else if f.clearsBufferBeforeWrite.isYes && !f.rollsBackFailedBlock.isYes then .violated (currentFindings f)
+  else .undetermined "no theorem for this combination of failure-handling facts"
 
-/-- what is proved for a repaired writer -/
+/-- what is proved whatever the facts: the repaired flush is safe -/
 def Partial (c : Cfg) (fc : FCfg) : Prop :=
-  fc.rollsBackFailedBlock = true → fc.restoresOffsetAfterHeader = true →
-  ∀ (mk : Mk), MkOk mk → ∀ (nl : Nat) (bs : List Block), (∀ b ∈ bs, b.WF) →
-  ∀ (w : WSt) (d : Disk), WInv d w (fileCells nl bs) → w.buf ≠ [] →
-  ∀ (rs : List Res), rollbackRes rs = .ok → ∀ (items : List (Op × Nat)),
-    ∃ f, (afterFault c fc mk w d rs items).d.get (flushWF fc mk { w := w, d := d, rs := rs }).w.path = some f ∧
-      loadEntries c.r f = entsOf bs ++ w.buf ++ items.map (·.1)
+  fc.rollsBackFailedBlock = true → fc.restoresOffsetAfterHeader = true → Holds c fc
 
-theorem C25_partial (c : Cfg) (fc : FCfg) : Partial c fc :=
-  fun h1 h2 mk hmk nl bs hwf w d hinv hb rs hrb items =>
-    repaired_writer_safe_partial c fc h1 h2 mk hmk nl bs hwf w d hinv hb rs hrb items
+theorem holds_repaired (c : Cfg) (fc : FCfg) (h1 : fc.rollsBackFailedBlock = true)
+    (h2 : fc.restoresOffsetAfterHeader = true) : Holds c fc :=
+  fun mk hmk nl bs hwf w d hinv _ hdirty hb rs items _ =>
+    holds_of_repaired c fc h1 h2 mk hmk nl bs hwf w d hinv hdirty hb rs items
+
+theorem C25_partial (c : Cfg) (fc : FCfg) : Partial c fc := fun h1 h2 => holds_repaired c fc h1 h2
 
 theorem classify_sound (f : Facts) : (classify f).Sound (Holds (cfgOf f) (fcOf f)) (Partial (cfgOf f) (fcOf f)) := by
   unfold classify
@@ -310,8 +467,12 @@ theorem classify_sound (f : Facts) : (classify f).Sound (Holds (cfgOf f) (fcOf f
   · trivial
   · split
     · rename_i h
-      simp only [Bool.and_eq_true, Bool.not_eq_true'] at h
-      exact ⟨failed_write_drops_entries (cfgOf f) (fcOf f) h.1 h.2, C25_partial _ _⟩
-    · trivial
+      simp only [Bool.and_eq_true] at h
+      exact holds_repaired _ _ h.1 h.2
+    · split
+      · rename_i h
+        simp only [Bool.and_eq_true, Bool.not_eq_true'] at h
+        exact ⟨failed_write_drops_entries (cfgOf f) (fcOf f) h.1 h.2, C25_partial _ _⟩
+      · trivial
 
 end Hv.C25
